@@ -28,13 +28,23 @@ Falsy(v) == v.t = "nil" \/ (v.t = "bool" /\ ~v.b) \/ (v.t \in {"str", "html"} /\
 T == <<Text(<<"T">>)>>
 Fv == <<Text(<<"F">>)>>
 Contexts == {"if", "elseif", "not", "notnot", "and", "or", "unknown"}
-KindProg(ctx) ==
-  CASE ctx = "if"     -> <<Emit(IfElse(Id("x"), T, Fv))>>
-    [] ctx = "elseif" -> <<Emit(IfChain(Bool(FALSE), <<Text(<<"N">>)>>, <<[c |-> Id("x"), b |-> T]>>, Fv, TRUE))>>
-    [] ctx = "not"    -> <<Emit(Not(Id("x")))>>
-    [] ctx = "notnot" -> <<Emit(Not(Not(Id("x"))))>>
-    [] ctx = "and"    -> <<Emit(Bin("&&", Id("x"), Bool(TRUE)))>>
-    [] ctx = "or"     -> <<Emit(Bin("||", Id("x"), Bool(FALSE)))>>
+\* the route by which the tested value reaches the condition: read from a variable, element of a Go
+\* slice, value of a Go map, result of a Go helper (no variable read at all)
+Routes == {"var", "elem", "mapval", "helper"}
+XE(route) == CASE route = "var"    -> Id("x")
+               [] route = "elem"   -> Idx(Id("xs"), IntL(0))
+               [] route = "mapval" -> Idx(Id("xm"), Str(<<"k">>))
+               [] route = "helper" -> Call("getx", <<>>)
+KindData(v) == [x |-> v, xs |-> A(<<v>>), xm |-> M([k \in {"k"} |-> v])]
+KindProgR(ctx, route) ==
+  LET X == XE(route) IN
+  CASE ctx = "if"     -> <<Emit(IfElse(X, T, Fv))>>
+    [] ctx = "elseif" -> <<Emit(IfChain(Bool(FALSE), <<Text(<<"N">>)>>, <<[c |-> X, b |-> T]>>, Fv, TRUE))>>
+    [] ctx = "not"    -> <<Emit(Not(X))>>
+    [] ctx = "notnot" -> <<Emit(Not(Not(X)))>>
+    [] ctx = "and"    -> <<Emit(Bin("&&", X, Bool(TRUE)))>>
+    [] ctx = "or"     -> <<Emit(Bin("||", X, Bool(FALSE)))>>
+KindProg(ctx) == KindProgR(ctx, "var")
 \* what the statement of C07 says each context renders for a truthy / falsy value
 KindText(ctx, truthy) ==
   CASE ctx \in {"if", "elseif"} -> IF truthy THEN <<"T">> ELSE <<"F">>
@@ -44,10 +54,13 @@ KindText(ctx, truthy) ==
 \* ---- chains
 Markers == <<"A", "B", "C", "D", "E">>
 Cond(i, b) == Call("p", <<IntL(i), Bool(b)>>)
-ChainIf(tv, hasel) ==
-  IfChain(Cond(1, tv[1]), <<Text(<<Markers[1]>>)>>,
-          [i \in 1..(Len(tv) - 1) |-> [c |-> Cond(i + 1, tv[i + 1]), b |-> <<Text(<<Markers[i + 1]>>)>>]],
-          <<Text(<<"Z">>)>>, hasel)
+\* fb: every branch body fails at run time after its marker (the failure of the TAKEN branch must fail the render)
+Body(m, fb) == IF fb THEN <<Text(<<m>>), Code(Call("fail", <<IntL(9)>>)), Text(<<"x">>)>> ELSE <<Text(<<m>>)>>
+ChainIfB(tv, hasel, fb) ==
+  IfChain(Cond(1, tv[1]), Body(Markers[1], fb),
+          [i \in 1..(Len(tv) - 1) |-> [c |-> Cond(i + 1, tv[i + 1]), b |-> Body(Markers[i + 1], fb)]],
+          Body("Z", fb), hasel)
+ChainIf(tv, hasel) == ChainIfB(tv, hasel, FALSE)
 Places == {"top", "for", "fn", "blk", "silent_in_for"}
 Place(pl, e) ==
   CASE pl = "top" -> <<Text(<<"[">>), Emit(e), Text(<<"]">>)>>
@@ -62,15 +75,19 @@ vars == <<cs>>
 FirstTrue(tv) == IF \E i \in 1..Len(tv) : tv[i] THEN CHOOSE i \in 1..Len(tv) : tv[i] /\ \A j \in 1..(i-1) : ~tv[j] ELSE 0
 
 Init ==
-  \/ \E k \in KindPool, ctx \in Contexts \ {"unknown"} :
-        cs = [fam |-> "kind", name |-> k.n, ctx |-> ctx, prog |-> KindProg(ctx), data |-> [x |-> k.v],
-              res |-> Run(KindProg(ctx), WithHelpers([x |-> k.v]), EmptyScope, ""), want |-> KindText(ctx, ~Falsy(k.v))]
+  \/ \E k \in KindPool, ctx \in Contexts \ {"unknown"}, rt \in Routes :
+        cs = [fam |-> "kind", name |-> k.n \o (IF rt = "var" THEN "" ELSE "@" \o rt), ctx |-> ctx, prog |-> KindProgR(ctx, rt), data |-> KindData(k.v),
+              res |-> Run(KindProgR(ctx, rt), WithHelpers(KindData(k.v)), EmptyScope, ""), want |-> KindText(ctx, ~Falsy(k.v))]
   \/ \E ctx \in Contexts \ {"unknown"} :      \* x not bound at all: an unknown identifier is falsy
         cs = [fam |-> "kind", name |-> "unknown_identifier", ctx |-> ctx, prog |-> KindProg(ctx), data |-> EmptyScope,
               res |-> Run(KindProg(ctx), WithHelpers(EmptyScope), EmptyScope, ""), want |-> KindText(ctx, FALSE)]
   \/ \E n \in 1..MaxN : \E tv \in [1..n -> BOOLEAN], hasel \in BOOLEAN, pl \in Places :
         LET prog == Place(pl, ChainIf(tv, hasel)) IN
         cs = [fam |-> "chain", name |-> pl, ctx |-> "chain", prog |-> prog, data |-> EmptyScope, tv |-> tv, hasel |-> hasel,
+              res |-> Run(prog, WithHelpers(EmptyScope), EmptyScope, ""), want |-> <<>>]
+  \/ \E n \in 1..MaxN : \E tv \in [1..n -> BOOLEAN], hasel \in BOOLEAN :
+        LET prog == Place("top", ChainIfB(tv, hasel, TRUE)) IN
+        cs = [fam |-> "failchain", name |-> "top", ctx |-> "chain", prog |-> prog, data |-> EmptyScope, tv |-> tv, hasel |-> hasel,
               res |-> Run(prog, WithHelpers(EmptyScope), EmptyScope, ""), want |-> <<>>]
 
 Next == UNCHANGED cs
@@ -94,6 +111,17 @@ ChainTheorem ==
        IN PiecesText(cs.res.pieces) = (IF Reps(cs.name) = 2 THEN once \o once ELSE once)
     /\ Len(cs.res.log) = Reps(cs.name) * ChainEvaluated(cs.tv)
     /\ \A i \in 1..Len(cs.res.log) : cs.res.log[i].id = ((i - 1) % ChainEvaluated(cs.tv)) + 1
+
+\* a chain whose bodies fail: the render fails exactly when a branch is taken, after evaluating the
+\* same prefix of conditions, and the failing helper runs once (no second branch is entered)
+FailChainTheorem ==
+  cs.fam = "failchain" =>
+    LET taken == FirstTrue(cs.tv) > 0 \/ cs.hasel
+        nc    == ChainEvaluated(cs.tv) IN
+    /\ IF taken THEN cs.res.k = "err" /\ cs.res.w ELSE (cs.res.k = "out" /\ PiecesText(cs.res.pieces) = <<"[", "]">>)
+    /\ Len(cs.res.log) = nc + (IF taken THEN 1 ELSE 0)
+    /\ \A i \in 1..nc : cs.res.log[i].f = "p" /\ cs.res.log[i].id = i
+    /\ taken => cs.res.log[nc + 1].f = "fail"
 
 Expect(r) == CASE r.k = "out" -> [k |-> "out", pieces |-> r.pieces, log |-> r.log]
                [] r.k = "err" -> [k |-> "err", w |-> r.w, log |-> r.log]
